@@ -70,11 +70,16 @@ pub fn child(path: &str) -> i32 {
         Err(e) => println!("{}", json!({"kind": "batch_error", "msg": e.to_string()})),
         Ok(rs) => {
             // match every response to the batch entry whose query its request echoes
+            // (identical queries in one batch are indistinguishable: a response goes to the first matching entry that still
+            // expects one - an entry expects as many responses as its query expands to)
             let mut resp = vec![];
+            let capacity: Vec<usize> = scn["batch"].as_array().unwrap().iter().map(|b| b["n"].as_u64().unwrap_or(1).max(1) as usize).collect();
+            let mut used = vec![0usize; batch.len()];
             for x in rs.iter() {
                 let req = x.get("request").cloned().unwrap_or(Value::Null);
                 let mut found = 0usize;
                 let mut echo = false;
+                let mut first_match = 0usize;
                 for (i, q) in batch.iter().enumerate() {
                     let same = match (q.as_object(), req.as_object()) {
                         (Some(qo), Some(ro)) => {
@@ -84,10 +89,19 @@ pub fn child(path: &str) -> i32 {
                         _ => canonical(q) == canonical(&req),
                     };
                     if same {
-                        found = i + 1;
                         echo = true;
-                        break;
+                        if first_match == 0 {
+                            first_match = i + 1;
+                        }
+                        if used[i] < capacity[i] {
+                            found = i + 1;
+                            used[i] += 1;
+                            break;
+                        }
                     }
+                }
+                if found == 0 {
+                    found = first_match; // more responses than the entry expects: the specification will say so
                 }
                 resp.push(json!({"q": found, "echo": echo, "err": x.get("error").is_some()}));
             }
